@@ -1418,11 +1418,11 @@ func (self *LockDB) GetOrNewLockManager(command *protocol.LockCommand) *LockMana
 
 		lockManager.lockKey = command.LockKey
 		lockManager.fastKeyValue = fastValue
+		atomic.AddUint32(&lockManager.refCount, 1)
 		fastValue.manager = lockManager
 		atomic.AddUint32(&fastValue.count, 1)
 		atomic.StoreUint32(&fastValue.lock, 2)
 		verifPoint("mgr.published", lockManager, command)
-		atomic.AddUint32(&lockManager.refCount, 1)
 		atomic.AddUint32(&lockManager.state.KeyCount, 1)
 		return lockManager
 	}
@@ -1465,11 +1465,11 @@ func (self *LockDB) GetOrNewLockManager(command *protocol.LockCommand) *LockMana
 
 		lockManager.lockKey = command.LockKey
 		lockManager.fastKeyValue = fastValue
+		atomic.AddUint32(&lockManager.refCount, 1)
 		fastValue.manager = lockManager
 		atomic.AddUint32(&fastValue.count, 1)
 		atomic.StoreUint32(&fastValue.lock, 2)
 		verifPoint("mgr.published", lockManager, command)
-		atomic.AddUint32(&lockManager.refCount, 1)
 		atomic.AddUint32(&lockManager.state.KeyCount, 1)
 		return lockManager
 	}
@@ -1481,13 +1481,13 @@ func (self *LockDB) GetOrNewLockManager(command *protocol.LockCommand) *LockMana
 		lockManager = self.freeLockManagers[freeLockManagerTail]
 	}
 	self.freeLockManagers[freeLockManagerTail] = nil
-	self.locks[command.LockKey] = lockManager
 	lockManager.lockKey = command.LockKey
 	lockManager.fastKeyValue = fastValue
+	atomic.AddUint32(&lockManager.refCount, 1)
+	self.locks[command.LockKey] = lockManager
 	atomic.AddUint32(&fastValue.count, 1)
 	self.mGlock.Unlock()
 	verifPoint("mgr.published", lockManager, command)
-	atomic.AddUint32(&lockManager.refCount, 1)
 	atomic.AddUint32(&lockManager.state.KeyCount, 1)
 	atomic.AddUint64(&lockManager.state.SlowKeyCount, 1)
 	return lockManager
